@@ -124,6 +124,22 @@ CHECKS.update({
    design_ref='DESIGN.md 4 (C03)'),
 })
 
+CHECKS.update({
+ 'C32': dict(
+   category='exploration', engine='symx', note=ENUM_NOTE,
+   technique='exhaustive enumeration (symx selectors) of scope-provider registrations through whole real loads; no solver verdict',
+   text=("Path-exhaustive: 2 x 1296 configurations (which of six registration keys are present, each bound to a marker provider / a provider returning None / an RREL string; "
+         "grammar RREL on or off); each is one real load whose resolved targets or error must be those of the first provider in the documented order."),
+   design_ref='DESIGN.md 4 (C32)'),
+ 'C07': dict(
+   category='model_checking', engine='symx', note=PTRUST,
+   technique='path-forking symbolic execution (symx, z3-decided branches) of whole real loads whose object names, reference texts and builtins keys are opaque symbolic names (substituted in pre_ref_resolution_callback); per-reference z3 validity queries; counterexamples replayed with concrete names',
+   text=("Solver verdict over names: on 3 (quick) / 5 (thorough) model shapes (abstract targets, equally named reference attributes with different target rules, list references, "
+         "with and without a two-slot builtins mapping) every feasible path of the real default resolution is explored with all names symbolic, and for each reference z3 proves the "
+         "unique-match / builtin / Unknown-object / not-unique case distinction for all name assignments of that path."),
+   design_ref='DESIGN.md 4 (C07)'),
+})
+
 NA = {
  'C16': "history quantifier over whole-program API calls; no data dimension to make symbolic — only enumeration of concrete call sequences would remain (DESIGN.md 5)",
  'C17': "decided by file-system I/O, glob, abspath and repository objects handed between nested real loads; only enumeration of import graphs would remain (DESIGN.md 5)",
